@@ -12,7 +12,8 @@
 (* complex element of model resource MR1.  For every case the programs     *)
 (*   to     x.toT()              conv   x.convertsToT()                    *)
 (*   toto   x.toT().toT()        strto  x.toString().toT()                 *)
-(* are evaluated.                                                          *)
+(* are evaluated, and for x already of type T also                         *)
+(*   strconv  x.toString().convertsToT().                                  *)
 (***************************************************************************)
 EXTENDS FPConvert, C13_Pool
 
@@ -163,19 +164,23 @@ Cases == {[src |-> s, T |-> T] : s \in Sources, T \in Targets}
 
 (******************************* programs *********************************)
 ProgNames == <<"to", "conv", "toto", "strto">>
+(* for x already of type T additionally  strconv  x.toString().convertsToT()  (must be true:
+   the round-trip clause x.toString().toT() = x is hard for every type and precision) *)
+ProgNamesFor(T, x) == IF x.t = TagOf(T) THEN ProgNames \o <<"strconv">> ELSE ProgNames
 Suffix(p, T) ==
   CASE p = "to"    -> ".to" \o T \o "()"
     [] p = "conv"  -> ".convertsTo" \o T \o "()"
     [] p = "toto"  -> ".to" \o T \o "().to" \o T \o "()"
     [] p = "strto" -> ".toString().to" \o T \o "()"
+    [] p = "strconv" -> ".toString().convertsTo" \o T \o "()"
     [] p = "str"   -> ".toString()"
-Progs(T) == [k \in 1..Len(ProgNames) |-> [p |-> ProgNames[k], sfx |-> Suffix(ProgNames[k], T)]]
+Progs(T, x) == LET ns == ProgNamesFor(T, x) IN [k \in 1..Len(ns) |-> [p |-> ns[k], sfx |-> Suffix(ns[k], T)]]
 
 CaseId(c) == c.src.pool \o ToString(c.src.j) \o "." \o c.src.sk \o (IF c.src.fk = "" THEN "" ELSE "-" \o c.src.fk) \o "." \o c.T
 
 Emitted(c) ==
   [id |-> CaseId(c), T |-> c.T, sk |-> c.src.sk, fk |-> c.src.fk, x |-> c.src.x,
-   ra |-> c.src.ra, rc |-> c.src.rc, progs |-> Progs(c.T)]
+   ra |-> c.src.ra, rc |-> c.src.rc, progs |-> Progs(c.T, c.src.x)]
 
 (******************************** the laws ********************************)
 (* L1  convertsToT(x) is true exactly when toT(x) is non-empty *)
